@@ -880,6 +880,242 @@ func stringLeg(e *env) {
 	}
 }
 
+// ---------------------------------------------------------------------------------- several literals in one program
+
+// mlit is one literal placed in a multi-literal program, with the value the property demands.
+type mlit struct {
+	t    numType
+	neg  bool
+	b    *base // nil for fixed-point
+	text string
+	ip   string
+	fp   string
+	src  string
+	want *big.Int
+}
+
+func (e *env) fixFamily(t numType) []mlit {
+	ips := []string{"0", "1", "7", "10", fmt.Sprint(e.rng.Intn(100000))}
+	ds := []string{"5", "1", "9", "25", "125", fmt.Sprint(1 + e.rng.Intn(999))}
+	ip := ips[e.rng.Intn(len(ips))]
+	d := ds[e.rng.Intn(len(ds))]
+	fracs := []string{d, "0" + d, "00" + d, d + "0", d + "00", "0" + d + "0", "000" + d, "0_" + d, d + "_0", "0", "00"}
+	ipvs := []string{ip, "0" + ip, "00" + ip, withUS(ip, e.rng), "0_" + ip}
+	var out []mlit
+	for _, f := range fracs {
+		if len(stripUS(f)) > t.Scale {
+			continue
+		}
+		for _, iv := range ipvs {
+			if strings.HasSuffix(iv, "_") || iv == "" {
+				continue
+			}
+			for _, neg := range []bool{false, true} {
+				if neg && !t.Signed {
+					continue
+				}
+				v := specFix(t, neg, iv, f)
+				if v.Cls != "Accept" || (neg && v.Z.Sign() == 0) {
+					continue
+				}
+				src := iv + "." + f
+				if neg {
+					src = "-" + src
+				}
+				out = append(out, mlit{t: t, neg: neg, ip: iv, fp: f, src: src, want: v.Z})
+			}
+		}
+	}
+	return out
+}
+
+func (e *env) intFamily(t numType) []mlit {
+	v := big.NewInt(int64(1 + e.rng.Intn(100)))
+	var vals []*big.Int
+	for _, m := range []int64{1, 2, 8, 10, 16, 100, 256} {
+		vals = append(vals, new(big.Int).Mul(v, big.NewInt(m)), new(big.Int).Add(new(big.Int).Mul(v, big.NewInt(m)), big.NewInt(1)))
+	}
+	var out []mlit
+	for _, z := range vals {
+		for bi := range bases {
+			b := bases[bi]
+			for st := 0; st < 4; st++ {
+				for _, neg := range []bool{false, true} {
+					if neg && !t.Signed {
+						continue
+					}
+					text := render(z, b, e.rng, st)
+					w := specInt(t, neg, b, text)
+					if w.Cls != "Accept" {
+						continue
+					}
+					src := b.Prefix + text
+					if neg {
+						src = "-" + src
+					}
+					out = append(out, mlit{t: t, neg: neg, b: &bases[bi], text: text, src: src, want: w.Z})
+				}
+			}
+		}
+	}
+	return out
+}
+
+// runMulti places the literals in one program (annotated lets, an array literal, a global and a nested
+// function) and compares every literal's run-time value, in both engines, with the written value.
+func (e *env) runMulti(ls []mlit, origin string) {
+	var decl, body strings.Builder
+	var results []string
+	for i, l := range ls {
+		switch i % 4 {
+		case 0:
+			fmt.Fprintf(&body, "  let v%d: %s = %s\n", i, l.t.Name, l.src)
+			results = append(results, fmt.Sprintf("v%d.toString()", i))
+		case 1:
+			// array literal shared with the next literal of the same type, if any
+			if i+1 < len(ls) && ls[i+1].t.Name == l.t.Name {
+				fmt.Fprintf(&body, "  let a%d: [%s] = [%s, %s]\n", i, l.t.Name, l.src, ls[i+1].src)
+			} else {
+				fmt.Fprintf(&body, "  let a%d: [%s] = [%s]\n", i, l.t.Name, l.src)
+			}
+			results = append(results, fmt.Sprintf("a%d[0].toString()", i))
+		case 2:
+			if ls[i-1].t.Name == l.t.Name {
+				results = append(results, fmt.Sprintf("a%d[1].toString()", i-1))
+			} else {
+				fmt.Fprintf(&decl, "access(all) fun g%d(): %s { return %s }\n", i, l.t.Name, l.src)
+				results = append(results, fmt.Sprintf("g%d().toString()", i))
+			}
+		default:
+			fmt.Fprintf(&body, "  fun n%d(): %s { return %s }\n", i, l.t.Name, l.src)
+			results = append(results, fmt.Sprintf("n%d().toString()", i))
+		}
+	}
+	script := decl.String() + "access(all) fun main(): [String] {\n" + body.String() + "  return [" + strings.Join(results, ", ") + "]\n}"
+	var srcs []string
+	for _, l := range ls {
+		srcs = append(srcs, l.src+":"+l.t.Name)
+	}
+	for _, vm := range []bool{false, true} {
+		o := e.h.RunScript(script, nil, vm)
+		e.sum.Evaluations += len(ls)
+		e.sum.Count(fmt.Sprintf("multi-literal program vm=%v", vm))
+		replay := map[string]any{"op": "multi-literal", "type": "program", "script": script, "vm": vm, "literals": srcs, "origin": origin}
+		if o.Class != "" {
+			e.fail("multi-literal-fails", fmt.Sprintf("program with accepted literals %v fails with %s (vm=%v): %v\n%s", srcs, o.Class, vm, o.Err, script), replay)
+			continue
+		}
+		arr := o.Value.(cadence.Array)
+		for i, l := range ls {
+			got := rawOfString(string(arr.Values[i].(cadence.String)))
+			e.nontrivial("multi|" + l.t.Name + "|" + l.src)
+			r := map[string]any{"op": "multi-literal", "type": l.t.Name, "literal": l.src, "position": i, "observed": got.String(),
+				"required": l.want.String(), "vm": vm, "script": script}
+			if got.Cmp(l.want) != 0 {
+				e.fail(fmt.Sprintf("multi-literal:%s:vm=%v", l.t.Name, vm),
+					fmt.Sprintf("in a program with literals %v the literal `%s` (position %d, type %s) evaluates to %s (vm=%v), required %s\n%s", srcs, l.src, i, l.t.Name, got, vm, l.want, script), r)
+			}
+			negS := "false"
+			if l.neg {
+				negS = "true"
+			}
+			obs := "(VAccept " + lib.Z(got) + ")"
+			if l.b == nil {
+				e.cw.Add(fmt.Sprintf("CFixLit %s %s %s %s %s", l.t.Coq, negS, lib.ZList([]byte(l.ip)), lib.ZList([]byte(l.fp)), obs), r)
+			} else {
+				e.cw.Add(fmt.Sprintf("CIntLit %s %s %s %s %s", l.t.Coq, negS, l.b.Coq, lib.ZList([]byte(l.text)), obs), r)
+			}
+		}
+	}
+}
+
+func pickLits(rng *lib.Rng, fam []mlit, k int) []mlit {
+	var out []mlit
+	for i := 0; i < k && len(fam) > 0; i++ {
+		out = append(out, fam[rng.Intn(len(fam))])
+	}
+	return out
+}
+
+func multiLeg(e *env) {
+	u64, f64, f128, u128 := fixTypes[1], fixTypes[0], fixTypes[2], fixTypes[3]
+	mk := func(t numType, neg bool, ip, fp string) mlit {
+		src := ip + "." + fp
+		if neg {
+			src = "-" + src
+		}
+		return mlit{t: t, neg: neg, ip: ip, fp: fp, src: src, want: specFix(t, neg, ip, fp).Z}
+	}
+	// hand-picked programs: same digits, different zeros / underscores / signs / types
+	e.runMulti([]mlit{mk(u64, false, "1", "5"), mk(u64, false, "1", "05"), mk(u64, false, "1", "005"), mk(u64, false, "1", "50"), mk(u64, false, "01", "5")}, "corpus")
+	e.runMulti([]mlit{mk(u64, false, "0", "1"), mk(u64, false, "0", "01"), mk(u64, false, "0", "00000001"), mk(u64, false, "0", "10")}, "corpus")
+	e.runMulti([]mlit{mk(f64, false, "1", "5"), mk(f64, true, "1", "5"), mk(f64, true, "1", "05"), mk(f64, false, "1", "0_5"), mk(f64, false, "1_0", "5")}, "corpus")
+	e.runMulti([]mlit{mk(f64, false, "1", "5"), mk(u64, false, "1", "5"), mk(f128, false, "1", "5"), mk(u128, false, "1", "5"), mk(f128, false, "1", "05"), mk(u128, false, "1", "005")}, "corpus")
+	e.runMulti([]mlit{mk(f128, false, "7", "9"), mk(f128, false, "7", "000000000000000000000009"), mk(f128, true, "7", "09"), mk(u128, false, "7", "90")}, "corpus")
+	n := 40
+	if e.thorough {
+		n = 700
+	}
+	for i := 0; i < n; i++ {
+		k := 3 + e.rng.Intn(6)
+		var ls []mlit
+		switch e.rng.Intn(4) {
+		case 0: // one fixed-point type
+			ls = pickLits(e.rng, e.fixFamily(fixTypes[e.rng.Intn(4)]), k)
+		case 1: // the same family of texts at several fixed-point types
+			for j := 0; j < k; j++ {
+				ls = append(ls, pickLits(e.rng, e.fixFamily(fixTypes[e.rng.Intn(4)]), 1)...)
+			}
+		case 2: // one integer type: equal and neighbouring values in different bases/spellings
+			ls = pickLits(e.rng, e.intFamily(intTypes[e.rng.Intn(len(intTypes))]), k)
+		default: // several integer types
+			for j := 0; j < k; j++ {
+				ls = append(ls, pickLits(e.rng, e.intFamily(intTypes[e.rng.Intn(len(intTypes))]), 1)...)
+			}
+		}
+		if len(ls) > 0 {
+			e.runMulti(ls, "random")
+		}
+	}
+	// several string literals in one program: equal strings written with different escapes
+	groups := [][]string{
+		{`A`, `\u{41}`, `\u{0041}`, `\u{00000041}`, `a`, `\u{61}`},
+		{`a\nb`, `a\u{a}b`, `a\u{0A}b`, `a\tb`, `a\u{9}b`, `anb`},
+		{`\u{e9}`, `é`, `e\u{301}`, `\u{65}\u{301}`, `e`},
+		{`\"`, `\u{22}`, `\'`, `'`, `\\`, `\u{5c}`, `\0`, `\u{0}`},
+		{``, `\u{}`, ` `, `\u{20}`, `\u{1F600}`, `\u{1f600}`, `😀`},
+	}
+	for _, g := range groups {
+		var elems []string
+		for _, s := range g {
+			elems = append(elems, "\""+s+"\"")
+		}
+		script := "access(all) fun main(): [[UInt8]] {\n  let xs: [String] = [" + strings.Join(elems, ", ") + "]\n  let res: [[UInt8]] = []\n  for x in xs { res.append(x.utf8) }\n  return res\n}"
+		for _, vm := range []bool{false, true} {
+			o := e.h.RunScript(script, nil, vm)
+			e.sum.Evaluations += len(g)
+			e.sum.Count(fmt.Sprintf("multi-string program vm=%v", vm))
+			replay := map[string]any{"op": "multi-string", "script": script, "vm": vm}
+			if o.Class != "" {
+				e.fail("multi-string-fails", fmt.Sprintf("program fails with %s (vm=%v)\n%s", o.Class, vm, script), replay)
+				continue
+			}
+			outer := o.Value.(cadence.Array)
+			for i, s := range g {
+				dec, ok, _ := parseString(s)
+				inner := outer.Values[i].(cadence.Array)
+				bs := make([]byte, len(inner.Values))
+				for j, v := range inner.Values {
+					bs[j] = byte(v.(cadence.UInt8))
+				}
+				if !ok || string(bs) != norm.NFC.String(string(dec)) {
+					e.fail(fmt.Sprintf("multi-string:vm=%v", vm), fmt.Sprintf("string literal \"%s\" (position %d) evaluates to %v (vm=%v), the parser decodes it to %v\n%s", s, i, []rune(string(bs)), vm, dec, script), replay)
+				}
+			}
+		}
+	}
+}
+
 func main() {
 	flag.Parse()
 	if *prop != "C40" {
@@ -906,11 +1142,13 @@ func main() {
 		"and random values of all 20 integer types, plus malformed ones (leading/trailing underscore, no digits); fixed-point literals around the extreme " +
 		"integer part of all 4 fixed-point types with every number of fractional digits 1..scale+1, random values with underscores/leading zeros; " +
 		"string literals built from random plain characters, simple escapes, \\u{...} escapes (1-8 digits, both cases, leading zeros) and malformed escapes; " +
-		"ast.QuoteString output re-parsed. Verdict class + value are compared with an independent oracle and, as observed outputs, with the Coq model. " +
+		"ast.QuoteString output re-parsed; programs with SEVERAL literals (annotated lets, array literals, global and nested functions) whose texts collide under plausible normalisations " +
+		"(same digits with different leading/trailing zeros of the fraction, underscores, leading zeros, signs, equal values in different bases, the same text at different types, equal strings with different escapes): every literal's run-time value in both engines. Verdict class + value are compared with an independent oracle and, as observed outputs, with the Coq model. " +
 		"non-trivial = literal with more than one character; distinct = distinct (type, literal)"
 	intLeg(e)
 	fixLeg(e)
 	stringLeg(e)
+	multiLeg(e)
 	e.cw.Close()
 	e.sum.CaseFiles = e.cw.Files
 	e.sum.Extra = map[string]any{"failure_counts": e.failed}
